@@ -19,7 +19,25 @@
 (*             end-blocker (keeper_price.go CalculatePrices ->             *)
 (*             CheckMissReport -> oracle MissReport)                       *)
 (* Environment actions: Tick (the clock), Svc (the price service quotes),  *)
-(*   SetFeeds (the current-feed list changes).                             *)
+(*   SetFeeds (the current-feed list changes), Env (the submitter's local  *)
+(*   prerequisites - feeder key in the keyring, account query, gas         *)
+(*   simulation - become unavailable / available again).                   *)
+(*                                                                         *)
+(* Exits of submitter.go submitPrice, top to bottom (each must release the *)
+(* pending marks and hand the key id back; the spec's Finish):             *)
+(*   E1 Keyring.Key(keyID) fails            -> return before any try       *)
+(*   E2 a try fails inside broadcastMsg before anything is broadcast (no    *)
+(*      client, QueryAccount / UnpackAny / GetAddress, gas simulation on    *)
+(*      every client, BuildUnsignedTx, Sign, encode), or every broadcast    *)
+(*      returns a transport error           -> next try or give up          *)
+(*   E3 CheckTx code # 0 (out of gas: larger gas adjustment) -> same        *)
+(*   E4 getTxResponse times out             -> same                         *)
+(*   E5 delivered with code # 0 (out of gas likewise)        -> same        *)
+(*   E6 delivered with code 0               -> return (success)             *)
+(*   E7 tries exhausted                     -> return                       *)
+(* `down` covers E1 and the pre-broadcast part of E2: while it holds, a    *)
+(* try ends before it reaches the network, so a submission started or      *)
+(* retried under `down` runs to its end within the same step.              *)
 (*                                                                         *)
 (* `calm` is the formal statement of the timing assumptions of C20: it     *)
 (* stays TRUE as long as the daemon polls at least every P seconds, every  *)
@@ -64,6 +82,8 @@ VARIABLES
     nsub,     \* number of submissions ever created
     mempool,  \* broadcast, not yet included transactions: sequence of [id, try, m, ts]
     lastPoll, \* clock of the latest Poll
+    down,     \* a local prerequisite of submitPrice is unavailable (feeder key deleted from the keyring,
+              \*   account query or gas simulation failing): every try fails before it broadcasts
     out,      \* outcome of the last step (not part of the state identity)
     \* ---- ghosts ----
     calm,     \* the timing assumptions have held so far
@@ -71,7 +91,7 @@ VARIABLES
     rejSeen   \* a first-try transaction was rejected by the chain while calm
 
 vars == <<clk, bt, h, par, feeds, updT, updH, vp, slot, active, since, svc, pending, subs, nsub, mempool,
-          lastPoll, out, calm, waited, rejSeen>>
+          lastPoll, down, out, calm, waited, rejSeen>>
 
 NoVP == [st |-> "none", price |-> 0, ts |-> 0, bh |-> 0]
 Max2(a, b) == IF a >= b THEN a ELSE b
@@ -151,6 +171,13 @@ Poll ==
        THEN /\ out' = [stage |-> "nothing", m |-> <<>>]
             /\ calm' = (calm /\ \A s \in Cur \ pending : svc[s].st # "missing")
             /\ UNCHANGED <<pending, subs, nsub>>
+       ELSE IF down
+       THEN \* the hand-off happens (pending marked, a key taken), submitPrice fails before any broadcast
+            \* (E1 / E2 on every try) and returns: marks released, key returned - all within this step
+            /\ nsub' = nsub + 1
+            /\ out' = [stage |-> "submitted", m |-> TLCEval([s \in Decision |-> New(s)])]
+            /\ calm' = FALSE
+            /\ UNCHANGED <<pending, subs>>
        ELSE LET D == Decision
                 m == TLCEval([s \in D |-> New(s)])   \* TLCEval: store an explicit function, not a lazy one
             IN /\ pending' = pending \cup D
@@ -158,7 +185,7 @@ Poll ==
                /\ subs' = subs \cup {[id |-> nsub + 1, m |-> m, ts |-> clk, st |-> "bcast", try |-> 1, res |-> "none"]}
                /\ out' = [stage |-> "submitted", m |-> m]
                /\ calm' = (calm /\ \A s \in Cur \ pending : svc[s].st # "missing")
-    /\ UNCHANGED <<clk, bt, h, par, feeds, updT, updH, vp, slot, active, since, svc, mempool, rejSeen>>
+    /\ UNCHANGED <<clk, bt, h, par, feeds, updT, updH, vp, slot, active, since, svc, mempool, down, rejSeen>>
 
 (***************************************************************************)
 (* The submitter (submitter.go submitPrice).  A failed try is followed by  *)
@@ -171,7 +198,7 @@ Finish(r) ==
 
 FailTry(r) ==
     /\ calm' = FALSE
-    /\ IF r.try < par.tries
+    /\ IF r.try < par.tries /\ ~down      \* under `down` the remaining tries fail at once
        THEN /\ subs' = (subs \ {r}) \cup {[r EXCEPT !.try = r.try + 1, !.st = "bcast", !.res = "none"]}
             /\ UNCHANGED pending
        ELSE Finish(r)
@@ -184,11 +211,11 @@ Bcast(id, res) ==
               /\ mempool' = Append(mempool, [id |-> id, try |-> r.try, m |-> r.m, ts |-> r.ts])
               /\ subs' = (subs \ {r}) \cup {[r EXCEPT !.st = "wait"]}
               /\ UNCHANGED <<pending, calm>>
-           \/ /\ res \in {"err", "chk"}
+           \/ /\ res \in {"err", "chk", "oog"}     \* transport error / CheckTx code # 0 / CheckTx out of gas
               /\ FailTry(r)
               /\ UNCHANGED mempool
     /\ out' = res
-    /\ UNCHANGED <<clk, bt, h, par, feeds, updT, updH, vp, slot, active, since, svc, nsub, lastPoll, waited, rejSeen>>
+    /\ UNCHANGED <<clk, bt, h, par, feeds, updT, updH, vp, slot, active, since, svc, nsub, lastPoll, down, waited, rejSeen>>
 
 TxResult(id, res) ==
     /\ id \in SubIds
@@ -202,7 +229,7 @@ TxResult(id, res) ==
            \/ /\ res = "timeout"
               /\ FailTry(r)
     /\ out' = res
-    /\ UNCHANGED <<clk, bt, h, par, feeds, updT, updH, vp, slot, active, since, svc, nsub, mempool, lastPoll, waited, rejSeen>>
+    /\ UNCHANGED <<clk, bt, h, par, feeds, updT, updH, vp, slot, active, since, svc, nsub, mempool, lastPoll, down, waited, rejSeen>>
 
 (***************************************************************************)
 (* The chain.  SubmitSignalPrices (msg_server.go): the stored timestamp is *)
@@ -265,7 +292,7 @@ Block(d, k) ==
     /\ rejSeen' = (rejSeen \/ (calm /\ \E i \in 1..Len(mempool) : mempool[i].try = 1 /\ r.res[i] = "rej"))
     /\ calm' = (calm /\ d <= par.D)
     /\ out' = r.res
-    /\ UNCHANGED <<clk, par, feeds, updT, updH, svc, pending, nsub, lastPoll, waited>>
+    /\ UNCHANGED <<clk, par, feeds, updT, updH, svc, pending, nsub, lastPoll, down, waited>>
 
 (***************************************************************************)
 (* Environment.                                                            *)
@@ -279,7 +306,7 @@ TickWith(dt, q) ==
     /\ waited' = TLCEval([s \in Sig |-> IF DueNow(s) THEN waited[s] + dt ELSE 0])
     /\ calm' = (calm /\ clk + dt - lastPoll <= par.P /\ \A r \in subs : clk + dt - r.ts <= par.L)
     /\ out' = "tick"
-    /\ UNCHANGED <<bt, h, par, feeds, updT, updH, vp, slot, active, since, pending, subs, nsub, mempool, lastPoll, rejSeen>>
+    /\ UNCHANGED <<bt, h, par, feeds, updT, updH, vp, slot, active, since, pending, subs, nsub, mempool, lastPoll, down, rejSeen>>
 
 Tick(dt) == TickWith(dt, svc)
 
@@ -287,7 +314,15 @@ Svc(q) ==
     /\ svc' = TLCEval([s \in Sig |-> q[s]])
     /\ out' = "svc"
     /\ UNCHANGED <<clk, bt, h, par, feeds, updT, updH, vp, slot, active, since, pending, subs, nsub, mempool,
-                   lastPoll, calm, waited, rejSeen>>
+                   lastPoll, down, calm, waited, rejSeen>>
+
+\* the feeder key disappears from / returns to the keyring, the account query or the gas simulation breaks / recovers
+Env(b) ==
+    /\ down' = b
+    /\ calm' = (calm /\ ~b)
+    /\ out' = "env"
+    /\ UNCHANGED <<clk, bt, h, par, feeds, updT, updH, vp, slot, active, since, svc, pending, subs, nsub, mempool,
+                   lastPoll, waited, rejSeen>>
 
 \* SetCurrentFeeds (the end-blocker's periodic update, installed here by the environment)
 SetFeeds(nf) ==
@@ -296,7 +331,7 @@ SetFeeds(nf) ==
     /\ calm' = (calm /\ subs = {} /\ mempool = <<>> /\ \A s \in Sig : nf[s].iv > 0 => TimingOK(nf[s].iv))
     /\ waited' = TLCEval([s \in Sig |-> 0])
     /\ out' = "feeds"
-    /\ UNCHANGED <<clk, bt, h, par, vp, slot, active, since, svc, pending, subs, nsub, mempool, lastPoll, rejSeen>>
+    /\ UNCHANGED <<clk, bt, h, par, vp, slot, active, since, svc, pending, subs, nsub, mempool, lastPoll, down, rejSeen>>
 
 -----------------------------------------------------------------------------
 (***************************************************************************)
